@@ -176,6 +176,11 @@ def classify_case(ctx, case, via, contracts, index=0):
         os.remove(db)
     load_argv = ['load', db, '-p', paths[0], '-e', paths[1], '-z', paths[2], '--timezone', case.get('tz', 'UTC')]
     cls_argv = ['classify', db, '-s', repr(float(case['sthr'])), '-j', repr(float(case['jthr']))]
+    # message verbosity is an option like any other: -v, -vv, -vvv with the log sent to a file
+    verbosity = index % 4
+    if verbosity:
+        cls_argv += ['-' + 'v' * verbosity, '--logfile', os.path.join(ctx.workdir, 'c{}.log'.format(index))]
+        outcome['verbosity'] = verbosity
     if via == 'cli':
         status, exc = data.cli(load_argv)
         if exc is not None or status != 0:
@@ -221,6 +226,8 @@ def check_case(ctx, prop, case, via, contracts, index=0):
     connection, outcome = classify_case(ctx, case, via, contracts, index)
     contracts.sink = None
     rec.hit('runs-via-' + via)
+    if outcome.get('verbosity'):
+        rec.hit('cli-runs-with-verbosity-{}'.format(outcome['verbosity']))
     if connection is None:
         rec.hit('load-refused (outside the domain)')
         return
